@@ -14,8 +14,7 @@ import (
 	"fmt"
 	"io"
 	"log/slog"
-	"os"
-	"runtime/pprof"
+	"runtime"
 	"time"
 
 	"github.com/AdguardTeam/AdGuardHome/internal/verifx/lib"
@@ -30,11 +29,10 @@ func silence() {
 
 func run(c *lib.Ctx) {
 	silence()
-	if pf := os.Getenv("C15_PROF"); pf != "" && c.ShardI == 0 {
-		f, _ := os.Create(pf)
-		_ = pprof.StartCPUProfile(f)
-		defer pprof.StopCPUProfile()
-	}
+	// One P: the harness is sequential (the virtual clock is process-global),
+	// and the forced collections of initFiltering (debug.FreeOSMemory) are
+	// several times cheaper without cross-thread stop-the-world hand-shakes.
+	runtime.GOMAXPROCS(1)
 	runSequences(c)
 	if c.Expired() {
 		return
